@@ -150,7 +150,7 @@ func (ts Tokens) MakeIndices() (Indices, error) {
 func (ts Tokens) Kind() IndexKind {
 
 	// It's only atoms of length one (so character password)
-	if ts.isAllAtoms() && ts.maxTokenLen() == 1 {
+	if ts.isAllAtoms() && ts.maxTokenLen() == 1 && !ts.hasEmptyToken() {
 		return CharacterIndexKind
 	}
 
@@ -303,6 +303,17 @@ func (ts Tokens) maxTokenLen() int {
 		}
 	}
 	return max
+}
+
+// hasEmptyToken is true when some token has an empty value. Such a token
+// needs an explicit (zero) length in the index to survive a round trip.
+func (ts Tokens) hasEmptyToken() bool {
+	for _, t := range ts {
+		if len(t.Value()) == 0 {
+			return true
+		}
+	}
+	return false
 }
 
 // isAllAtoms returns true when all of tokens are Atoms.
